@@ -1,6 +1,6 @@
 """C05 — grid application is exactly the per-location method, serial or parallel."""
 import random
-import warnings
+import re
 
 import numpy as np
 
@@ -39,9 +39,20 @@ def expected_dtype(fut):
     return fut.dtype if np.issubdtype(fut.dtype, np.floating) else np.dtype(float)
 
 
+class _Packing:
+    """problems list that attaches the (tiny) input arrays to the failing case so that the replay file is self-contained"""
+
+    def __init__(self, problems, obs, hist, fut):
+        self.problems, self.data = problems, (obs, hist, fut)
+
+    def append(self, item):
+        self.problems.append((item[0], {**item[1], **G.pack(*self.data)}))
+
+
 def oracle(case, deb, obs, hist, fut, results, problems, kw=None):
     """the property on the real code: every result = stacked apply_location, same shape / dtype, all results equal"""
     kw = kw or {}
+    problems = _Packing(problems, obs, hist, fut)
     out_T = obs.shape[0] if case["kind"] == "dc" else fut.shape[0]
     dt = expected_dtype(fut)
     conv = [x if np.issubdtype(x.dtype, np.floating) else x.astype(float) for x in (obs, hist, fut)]
@@ -146,7 +157,8 @@ def run(tier, res, force_search=False):
             r1 = results[0][1]
             r2 = G.run_apply(deb, o2, h2, f2, parallel=(k % 8 == 0), nproc=2)
             if r1[0] == "ok" and (r2[0] != "ok" or not np.array_equal(r1[1][:, i, j], r2[1][:, i, j], equal_nan=True)):
-                problems.append((f"column ({i},{j}) changed when only the other cells' data changed", {**case, "cell": [i, j]}))
+                problems.append((f"column ({i},{j}) changed when only the other cells' data changed",
+                                 {**case, "cell": [i, j], **G.pack(obs, hist, fut), **G.pack(o2, h2, f2, "other_")}))
 
     # ---- driver
     mismatches = []
@@ -184,8 +196,8 @@ def run(tier, res, force_search=False):
     # ---- verdict
     seen = set()
     for p, case in problems:
-        key = (p.split(":")[0][:40] + "|" + p.split(":")[-1][:25], case.get("kind"), case.get("what"))
-        if key in seen:
+        key = (re.sub(r"[0-9]+", "#", p)[:48], case.get("kind"), case.get("what"))
+        if key in seen or len(seen) >= 6:
             continue
         seen.add(key)
         res.violations.append((p, {"property": PROP, "failing_input": _json(case), "problem": p,
@@ -198,3 +210,31 @@ def run(tier, res, force_search=False):
 
 def _json(case):
     return {k: (list(v) if isinstance(v, tuple) else v) for k, v in case.items()}
+
+
+def replay(data):
+    """re-run the failing input of a replay file against the real code; exit 1 iff the violation reproduces"""
+    fi = data.get("failing_input")
+    if not fi or "obs" not in fi:
+        print("replay: no failing input recorded (a proof obligation / the correspondence broke):", str(data.get("broken"))[:300])
+        return 2
+    obs, hist, fut = G.unpack(fi)
+    deb = G.debiaser_for(fi)
+    kw = fi.get("kwargs") or {}
+    fs = bool(fi.get("failsafe", False))
+    results = [("serial", G.run_apply(deb, obs, hist, fut, failsafe=fs, **kw))]
+    for p in fi.get("nprocs") or [2]:
+        results.append((f"parallel/{p}", G.run_apply(deb, obs, hist, fut, parallel=True, nproc=p, failsafe=fs, **kw)))
+    problems = []
+    oracle({k: v for k, v in fi.items() if k not in ("obs", "hist", "fut")}, deb, obs, hist, fut, results, problems, kw)
+    if "other_obs" in fi and "cell" in fi:
+        o2, h2, f2 = G.unpack(fi, "other_")
+        i, j = fi["cell"]
+        r1, r2 = results[0][1], G.run_apply(deb, o2, h2, f2)
+        if r1[0] == "ok" and (r2[0] != "ok" or not np.array_equal(r1[1][:, i, j], r2[1][:, i, j], equal_nan=True)):
+            problems.append((f"column ({i},{j}) changed when only the other cells' data changed", fi))
+    for p, _ in problems:
+        print("REPRODUCED:", p)
+    if not problems:
+        print("not reproduced: the property holds on this input")
+    return 1 if problems else 0
